@@ -89,10 +89,11 @@ func consistentPublicMaterial(parties []uint16, stored map[uint16][]byte) string
 }
 
 func unitC01direct(e common.Env, p *common.Part) {
-	p.Rule = "BLS key generation with directly wired TBLS backends (per-link FIFO, PRNG delivery order) for all 2<=t<=n<=6 (thorough 7), party identifier sets 1..n, non-contiguous and PRNG (<256, incl. 0); then fresh signers re-created from the serialised stored data only: every subset of size >= t signs digests {empty, 1 byte, 32 random bytes, 32 bytes with leading zeros, 1 KiB}, signatures aggregated in PRNG order and verified under the threshold public key a PRNG-chosen party reports; every second case: a second key generation among the same parties, and signer objects that still hold the first key's share (loaded from stored data, or left by the first KeyGen) are loaded with the second key's stored data and must sign under the second key; distinct key = (n, t, id set, schedule seed); non-trivial when key generation completed and at least one aggregate was verified"
+	p.Rule = "BLS key generation with directly wired TBLS backends (per-link FIFO, PRNG delivery order) for all 2<=t<=n<=6 (thorough 7), party identifier sets 1..n, non-contiguous and PRNG (<256, incl. 0); then fresh signers re-created from the serialised stored data only: every subset of size >= t signs digests {empty, 1 byte, 32 random bytes, 32 bytes with leading zeros, 1 KiB}, signatures aggregated in PRNG order and verified under the threshold public key a PRNG-chosen party reports; every second case: a second key generation among the same parties, and signer objects that still hold the first key's share (loaded from stored data, or left by the first KeyGen) are loaded with the second key's stored data and must sign under the second key; plus committees of (21,2), (24,3), (30,2) (thorough also (40,2)) parties whose aggregates are formed by everybody, everybody but the first / the last, the upper / lower half, a middle window and PRNG sets; distinct key = (n, t, id set, schedule seed); non-trivial when key generation completed and at least one aggregate was verified"
 	maxN := e.Pick(6, 7)
 	reps := e.Pick(4, 60)
 	idx := 0
+	c01large(e, p)
 	for n := 2; n <= maxN; n++ {
 		for t := 2; t <= n; t++ {
 			for r := 0; r < reps; r++ {
@@ -208,6 +209,80 @@ func unitC01direct(e common.Env, p *common.Part) {
 					p.Sample(map[string]interface{}{"n": n, "t": t, "ids": ids, "aggregates_verified": checked})
 				}
 			}
+		}
+	}
+}
+
+// c01large: key generations in committees of 21..40 parties with low thresholds (the DKG's own cross-check enumerates every
+// t-subset, which bounds t), then LARGE signer sets: everybody, everybody but the first / the last, the upper and the lower half,
+// a window in the middle, PRNG sets of every size class. Products over many evaluation points grow far beyond a machine word.
+func c01large(e common.Env, p *common.Part) {
+	idx := 1000
+	for _, nt := range [][2]int{{21, 2}, {24, 3}, {30, 2}, {40, 2}} {
+		idx++
+		if !e.Mine(idx) || p.ViolationCount() >= 3 {
+			continue
+		}
+		if !e.Thorough() && nt[0] == 40 {
+			continue
+		}
+		n, t := nt[0], nt[1]
+		rng := e.Rng("c01large", n, t)
+		ids := make([]uint16, n)
+		for i := range ids {
+			ids[i] = uint16(i + 1)
+		}
+		key := fmt.Sprintf("bls direct large committee n=%d t=%d", n, t)
+		p.Begin(key)
+		d := newDrun(scheme{Name: "bls"}, ids, t, rng)
+		ctx, cancel := context.WithTimeout(context.Background(), 180*time.Second)
+		ok := d.run(ctx, cancel, ids, 180*time.Second)
+		viol := ""
+		switch {
+		case len(d.panics) > 0:
+			viol = d.panics[0]
+		case !ok:
+			viol = "KeyGen did not return"
+		default:
+			for _, id := range ids {
+				if d.errs[id] != nil {
+					viol = fmt.Sprintf("all-honest key generation failed at party %d: %v", id, d.errs[id])
+				}
+			}
+		}
+		if viol == "" {
+			viol = consistentPublicMaterial(ids, d.outs)
+		}
+		checked := 0
+		if viol == "" {
+			sets := [][]uint16{ids, ids[1:], ids[:n-1], ids[n/2:], ids[:n/2], ids[n/4 : n/4+n/2], ids[n-t:], ids[:t]}
+			for k := 0; k < e.Pick(6, 40); k++ {
+				perm := rng.Perm(n)
+				var sub []uint16
+				for _, x := range perm[:t+rng.Intn(n-t+1)] {
+					sub = append(sub, ids[x])
+				}
+				sets = append(sets, sub)
+			}
+			digest := make([]byte, 32)
+			rng.Read(digest)
+			for _, sub := range sets {
+				order := append([]uint16{}, sub...)
+				rng.Shuffle(len(order), func(a, b int) { order[a], order[b] = order[b], order[a] })
+				if err := jointBLS(ids, t, d.outs, order, digest, ids[rng.Intn(n)]); err != nil {
+					srt := append([]uint16{}, sub...)
+					sort.Slice(srt, func(a, b int) bool { return srt[a] < srt[b] })
+					viol = fmt.Sprintf("the aggregate of the %d signers %v does not verify under the threshold public key: %v", len(sub), srt, err)
+					break
+				}
+				checked++
+			}
+		}
+		p.Case(key, checked > 0)
+		p.Count("keygens", 1)
+		p.Count("large_committee_aggregates_verified", int64(checked))
+		if viol != "" {
+			p.Violate("bls-direct/"+classify(viol), key+": "+viol, map[string]interface{}{"n": n, "t": t})
 		}
 	}
 }
